@@ -74,6 +74,7 @@ pub fn rdata_for(rtype: u16, i: usize) -> Vec<u8> {
             86400,
             if (i / SERIALS.len()) % 2 == 0 { 60 } else { 120 },
         ),
+        T_PRIV => vec![0xC0 + (i % 3) as u8, 7, 7],
         // ANY / AXFR / others: opaque octets (never valid in a zone)
         _ => vec![1, 2, 3, 4],
     }
@@ -139,7 +140,7 @@ fn serial_strategy(allow_max: bool) -> impl Strategy<Value = u32> {
 pub fn init_zone(allow_max_serial: bool) -> impl Strategy<Value = InitZone> {
     let extra = (
         prop_oneof![4 => 1usize..N_IN_ZONE, 1 => Just(0usize)],
-        prop_oneof![5 => Just(T_A), 3 => Just(T_TXT), 2 => Just(T_NS), 2 => Just(T_CNAME)],
+        prop_oneof![5 => Just(T_A), 3 => Just(T_TXT), 2 => Just(T_NS), 2 => Just(T_CNAME), 1 => Just(T_PRIV)],
         0usize..3,
         prop_oneof![Just(300u32), Just(600u32)],
     );
@@ -169,6 +170,7 @@ fn rrset_type() -> impl Strategy<Value = u16> {
         15 => Just(T_NS),
         15 => Just(T_CNAME),
         9 => Just(T_SOA),
+        8 => Just(T_PRIV),
     ]
 }
 
@@ -240,7 +242,7 @@ pub fn umsg() -> impl Strategy<Value = UMsg> {
         prop_oneof![9 => vec(urr(false), 0..1), 8 => vec(urr(false), 1..2), 3 => vec(urr(false), 2..4)],
         prop_oneof![1 => vec(urr(true), 0..1), 5 => vec(urr(true), 1..3), 3 => vec(urr(true), 3..6)],
     )
-        .prop_map(|(prereqs, updates)| UMsg { prereqs, updates })
+        .prop_map(|(prereqs, updates)| UMsg { prereqs, updates, full_prereq: None })
 }
 
 #[derive(Clone, Debug, Serialize, Deserialize)]
@@ -273,6 +275,17 @@ pub fn history(max_msgs: usize, allow_max_serial: bool) -> impl Strategy<Value =
                         rr.rdata = rdata_for(*t, s / 7);
                     }
                 }
+            }
+        }
+        // one message in five (not the first) checks complete RRsets before updating
+        for j in 1..msgs.len() {
+            let s = sel[(si + j) % sel.len()];
+            if s % 5 == 0 {
+                msgs[j].full_prereq = Some(FullPrereq {
+                    first: (s >> 8) as u8,
+                    second: if (s >> 4) % 4 != 0 { Some((s >> 16) as u8) } else { None },
+                    order: ((s >> 24) % 4) as u8,
+                });
             }
         }
         History { init, msgs }
